@@ -3,7 +3,7 @@ import json, os, sys
 from plib import R, hx
 
 HK = 0x1f3d5b79a2c4e6081f3d5b79a2c4e6081f3d5b79a2c4e6081f3d5b79a2c4e609 % R
-SHAPE_KEYS = ["gates", "wit", "pis", "hg", "hw", "hp", "hr", "rv", "errs"]
+SHAPE_KEYS = ["gates", "wit", "pis", "hg", "hw", "hp", "hpr", "hr", "rv", "errs"]
 
 
 def hash_list(xs):
